@@ -22,7 +22,11 @@ Definition copyout_inside (wide : bool) : Prop :=
     1 <= image_width -> ss_valid ss comp -> 1 <= num -> 1 <= den ->
     0 <= j < tmp_th comp ss (8 * num / den) ->
     let '(off, len) := copyout_read wide image_width ss num den comp j in
-    0 <= off /\ off + len <= copyout_total wide image_width ss num den.
+    (* starts at temporary row j of the component, stays inside that row and inside _tmpbuf *)
+    off = tmp_off wide image_width (tjscaled image_width num den) ss (8 * num / den) comp
+          + j * tmp_stride wide image_width (tjscaled image_width num den) comp ss (8 * num / den) /\
+    0 <= off /\ 0 <= len <= tmp_stride wide image_width (tjscaled image_width num den) comp ss (8 * num / den) /\
+    off + len <= copyout_total wide image_width ss num den.
 
 Definition copyout_overreads (wide : bool) : Prop :=
   exists image_width ss num den comp j,
@@ -63,14 +67,18 @@ Proof.
   assert (P : forall c, plane_w c pwd ss <= tmp_stride true image_width pwd c ss dct)
     by (intros c; unfold tmp_stride; lia).
   pose proof (P 0) as P0. pose proof (P 1) as P1. pose proof (P 2) as P2.
+  assert (Hpw : 0 <= plane_w comp pwd ss).
+  { pose proof (tjscaled_pos image_width num den Hw Hn Hd) as Hsw.
+    destruct (plane_dims comp pwd 1 ss Hsw ltac:(lia) (conj Hss Hc)) as (A & _). lia. }
+  split; [reflexivity|].
   assert (Hn3 : ncomp ss = 1 \/ ncomp ss = 3) by (unfold ncomp; destruct (ss =? 3); lia).
   destruct Hn3 as [Hn3 | Hn3]; rewrite Hn3 in *.
   - assert (comp = 0) as -> by lia. change (Z.to_nat 0) with 0%nat. change (Z.to_nat 1) with 1%nat.
-    cbn [tmp_off_from]. split; nia.
+    cbn [tmp_off_from]. repeat split; try nia; try (apply P).
   - change (Z.to_nat 3) with 3%nat. assert (comp = 0 \/ comp = 1 \/ comp = 2) as [->|[->| ->]] by lia.
-    + change (Z.to_nat 0) with 0%nat. cbn [tmp_off_from]. change (0 + 1) with 1. change (1 + 1) with 2. split; nia.
-    + change (Z.to_nat 1) with 1%nat. cbn [tmp_off_from]. change (0 + 1) with 1. change (1 + 1) with 2. split; nia.
-    + change (Z.to_nat 2) with 2%nat. cbn [tmp_off_from]. change (0 + 1) with 1. change (1 + 1) with 2. split; nia.
+    + change (Z.to_nat 0) with 0%nat. cbn [tmp_off_from]. change (0 + 1) with 1. change (1 + 1) with 2. repeat split; try nia; try (apply P).
+    + change (Z.to_nat 1) with 1%nat. cbn [tmp_off_from]. change (0 + 1) with 1. change (1 + 1) with 2. repeat split; try nia; try (apply P).
+    + change (Z.to_nat 2) with 2%nat. cbn [tmp_off_from]. change (0 + 1) with 1. change (1 + 1) with 2. repeat split; try nia; try (apply P).
 Qed.
 
 (* the statement about the source AS IT IS NOW: tmp_rows_cover_pw is read from turbojpeg.c *)
